@@ -207,10 +207,11 @@ def encode_call(q, name, args, kw):
         if o is not None and not isinstance(o, Order):
             raise Unsupported("order %r" % (o,))
         return {"m": "orderby", "args": [d_arg(x) for x in a], "order": describe.d_ord(o)}
-    if name in ("limit", "offset"):
+    if name in ("limit", "offset", "fetch_next"):
         if len(a) != 1 or kw:
             raise Unsupported(name + " signature")
-        return {"m": name, "n": _nat(a[0], name)}
+        # fetch_next(n) (Oracle / MSSQL, deprecated) writes the limit like limit(n)
+        return {"m": "limit" if name == "fetch_next" else name, "n": _nat(a[0], name)}
     if name == "slice":
         sl = a[0]
         if sl.step is not None:
@@ -283,11 +284,11 @@ BUILDER_METHODS = [
     "force_index", "use_index", "distinct", "for_update", "ignore", "with_totals", "prewhere", "where", "having",
     "groupby", "rollup", "orderby", "limit", "offset", "slice", "set", "on_duplicate_key_update",
     "on_duplicate_key_ignore", "modifier", "distinct_on", "on_conflict", "do_nothing", "do_update", "using", "top",
-    "final", "sample", "limit_by", "limit_offset_by", "hint", "returning",
+    "final", "sample", "limit_by", "limit_offset_by", "hint", "returning", "fetch_next",
 ]
 JOINER_METHODS = ["on", "on_field", "using", "cross"]
 # other @builder methods: calls made from inside them must not be recorded as calls of the check
-OPAQUE_METHODS = ["join", "replace_table", "fetch_next"]
+OPAQUE_METHODS = ["join", "replace_table"]
 SETOP_CTORS = ["union", "union_all", "intersect", "except_of", "minus"]
 SETOP_METHODS = ["orderby", "limit", "offset", "union", "union_all", "intersect", "except_of", "minus"]
 
